@@ -107,7 +107,15 @@ def run_scenario(sc):
         faults = {int(k): v for k, v in (sc.get("faults") or {}).items()}
         counter = {"n": 0}
 
+        windows = sc.get("error_windows") or []
+
         def fault_for(info):
+            if info["api"] == "Produce" and counter.get("on"):
+                now = loop.time() - counter.get("t0", 0.0)
+                for w in windows:
+                    if w["from"] <= now < w["to"] and any(
+                            p["partition"] == w["partition"] for t in info["req"]["topics"] for p in t["partitions"]):
+                        return Fault("error", w["code"])
             if info["api"] not in ("Produce", "Metadata") or not counter.get("on"):
                 return None
             counter["n"] += 1
@@ -167,6 +175,7 @@ def run_scenario(sc):
         p = AIOKafkaProducer(**kw)
         await p.start()
         net.fault_counter["on"] = True      # faults are placed on requests after start()
+        net.fault_counter["t0"] = loop.time()
         if sc.get("seq_start"):
             for part, v in sc["seq_start"].items():
                 p._txn_manager._sequence_numbers[TopicPartition("t", int(part))] = v
